@@ -323,7 +323,7 @@ impl Run {
     }
 
     pub fn is_known(&self, sig: &str) -> Option<&KnownFinding> {
-        self.known.iter().find(|k| k.key == sig)
+        self.known.iter().find(|k| glob_match(&k.key, sig))
     }
 
     pub fn has_violation(&self) -> bool {
@@ -380,7 +380,8 @@ impl Run {
                 false
             }
             Verdict::Fail { sig, msg } => {
-                if !self.strict_replay && self.is_known(sig).is_some() {
+                if let (false, Some(k)) = (self.strict_replay, self.is_known(sig)) {
+                    let sig = &k.key;
                     *c.known_hits.entry(sig.clone()).or_default() += 1;
                     c.known_examples
                         .entry(sig.clone())
@@ -666,4 +667,32 @@ impl Run {
 pub fn pick_idx(raw: u16, len: usize) -> usize {
     debug_assert!(len > 0);
     ((raw as usize) * len) >> 16
+}
+
+/// `*` in a known-finding key matches any (possibly empty) substring.
+pub fn glob_match(pattern: &str, text: &str) -> bool {
+    if !pattern.contains('*') {
+        return pattern == text;
+    }
+    let parts: Vec<&str> = pattern.split('*').collect();
+    let mut pos = 0usize;
+    for (i, part) in parts.iter().enumerate() {
+        if part.is_empty() {
+            continue;
+        }
+        if i == 0 {
+            if !text.starts_with(part) {
+                return false;
+            }
+            pos = part.len();
+        } else if i == parts.len() - 1 {
+            return text.len() >= pos + part.len() && text.ends_with(part);
+        } else {
+            match text[pos..].find(part) {
+                Some(j) => pos += j + part.len(),
+                None => return false,
+            }
+        }
+    }
+    true
 }
